@@ -311,7 +311,7 @@ func init() {
 	core.Register(&core.Prop{
 		ID:    "C01",
 		Level: "model_checking",
-		Rule: "part matrix: every (option subset of {-l,-p,-t,-g,-o,-D,-c,-I,-a} with -r) x arrangement {daemon-pull, daemon-push, local, lib-pull, lib-push} is a real session over a tree holding the full product size x content family x prior-destination variant (absent, identical, edited, truncated, extended, other type in the way, ...); part forms: source forms (directory itself, single file, two sources, no -r) x option sets x arrangements; part big (thorough): boundary sizes up to 3 MiB. " +
+		Rule: "part matrix: every (option subset of {-l,-p,-t,-g,-o,-D,-c,-I,-a} with -r) x arrangement {daemon-pull, daemon-push, local, lib-pull, lib-push} is a real session over a tree holding the full product size x content family x prior-destination variant (absent, identical, edited, truncated, extended, other type in the way, ...); part forms: source forms (directory itself, single file, two sources, no -r) x option sets x arrangements; part big: sizes around the 256 KiB chunk/window (thorough: 12 boundary sizes up to 3 MiB x 6 families); part histories: explicit-state BFS (depth 2, thorough 3) over edits on either side (4 contents incl. empty and same-size twins, deletes, symlink/directory in the way) and real syncs with 4 option sets x 5 arrangements, so that prior destination states are reached by earlier syncs. " +
 			"states = regular files whose destination bytes were compared with the reference update rule, transitions = sessions; a case is non-trivial when at least one file was actually replaced",
 		Assum: []string{"tmpfs scratch behaves like a POSIX file system", "sessions run as root"},
 		Parts: func(tier string) []core.Part {
@@ -320,6 +320,7 @@ func init() {
 				{Name: "forms", Build: c01BuildForms},
 				{Name: "big", Build: c01BuildBig},
 				{Name: "longname", Build: c01BuildLongName},
+				{Name: "histories", Build: c01BuildHistories},
 			}
 		},
 	})
@@ -406,10 +407,15 @@ func c01BuildForms(tier string) core.Source {
 
 func c01BuildBig(tier string) core.Source {
 	drive.Quiet()
-	if tier != "thorough" {
-		return core.FuncSource{N: 0}
-	}
 	sizes := []int{262143, 262144, 262145, 489999, 490000, 490001, 491401, 524287, 524289, 786433, 1<<20 + 1, 3<<20 + 17}
+	fams := []int{famHash, famZero, famP7, famP701, famFF, famText}
+	argsets := [][]string{{"-r"}, {"-rt"}, {"-a"}, {"-rc"}, {"-rtI"}}
+	if tier != "thorough" {
+		// quick: the sizes around the 256 KiB chunk/window and one multi-window size, two content families
+		sizes = []int{262144, 262145, 786433}
+		fams = []int{famHash, famZero}
+		argsets = [][]string{{"-rt"}, {"-rc"}}
+	}
 	type bc struct {
 		size, fam int
 		arr       string
@@ -417,9 +423,9 @@ func c01BuildBig(tier string) core.Source {
 	}
 	var cases []bc
 	for _, size := range sizes {
-		for _, fam := range []int{famHash, famZero, famP7, famP701, famFF, famText} {
+		for _, fam := range fams {
 			for _, arr := range drive.Arrangements {
-				for _, args := range [][]string{{"-r"}, {"-rt"}, {"-a"}, {"-rc"}, {"-rtI"}} {
+				for _, args := range argsets {
 					cases = append(cases, bc{size, fam, arr, args})
 				}
 			}
